@@ -482,6 +482,8 @@ class Exec:
             return self.aggregate(o, env, g)
         if k == "filter":
             c = self.cond(o.cond, env)
+            if g_and(g, c) is False:
+                return False      # statically dead (e.g. the branch test of an ADT pattern on another branch's value)
             return self.op(o.body, env, g_and(g, c))
         if k == "break":
             c = self.cond(o.cond, env)
@@ -492,7 +494,9 @@ class Exec:
             v = self.expr(o.expr, env)
             if isinstance(v, Rec):
                 if len(v.fields) != o.arity:
-                    raise EngineError("unpack arity mismatch")
+                    # untransformed RAM unpacks every nested ADT pattern before testing any branch tag; the value read from
+                    # a record of another arity is unspecified until HoistConditions has moved the tag test up
+                    raise Unsupported("unpack of a record of another arity before the branch test (initial RAM of nested ADT patterns)")
                 env2 = dict(env)
                 env2[o.tid] = v.fields
                 return self.op(o.body, env2, g)
